@@ -21,6 +21,25 @@ def _c10a_replay(tier, seed):
                 reproduced=p.stdout.strip().startswith("(True"))
 
 
+def _certs_v2_bounded(prop):
+    def run(tier, seed):
+        import subprocess, os, json
+        here = os.path.dirname(os.path.dirname(os.path.abspath(__file__)))
+        p = subprocess.run(["/venv/bin/python", os.path.join(here, "bounded", "certs_v2_roundtrip.py")], capture_output=True, text=True, timeout=600)
+        try:
+            d = json.loads(p.stdout)
+        except ValueError:
+            return dict(name="bounded-v2-element-roundtrip", bounded=True, status="checker-error", error=(p.stdout + p.stderr)[-600:])
+        mine = [f for f in d["failures"] if f["prop"] == prop]
+        out = dict(name="bounded-v2-element-roundtrip", bounded=True, bound=d["bound"], stats=d["stats"], status="violation" if mine else "ok",
+                   note="real code, real ecdsa P-256 signatures; NOT counted as proved")
+        if mine:
+            out.update(witness=mine[0], what=mine[0]["what"], replay_cmd="/venv/bin/python bounded/certs_v2_roundtrip.py")
+        return out
+    run.__name__ = "certs_v2_bounded_" + prop
+    return run
+
+
 def _certs_bounded(prop):
     def run(tier, seed):
         import subprocess, os, json
@@ -84,12 +103,16 @@ PROPS = {
     "C16": dict(level="proof", assumptions=COMMON + ["A-CRYPTO: element validity is an uninterpreted predicate",
                                                        "scope: version-1 certificates: _parse terminates (unwinding assertion over the finite universe of the four "
                                                        "element names) and establishes a cycle-free path to the root for every target, which bounds both loops of "
-                                                       "validate_and_get_values; the version-2 element classes (unbounded names), from_jsonfile's version dispatch "
-                                                       "and the save/load round trip are NOT covered yet"],
+                                                       "validate_and_get_values.  Save/load: for the sgx_attestation_key and sgx_quote elements of version 2, to_dict writes "
+                                                       "and _init_with_map reads back every field the verdict depends on (contracts over the same fields; the round trip "
+                                                       "is their composition); the v1 round trip, from_jsonfile's version dispatch, the x509 element (base64) and the "
+                                                       "version-2 chain walk over unboundedly many element names are NOT under contract (v1 round trip: bounded harness only)",
+                                                       "A-CSTRUCT: CStruct layouts read off the real classes by executing them (spec/cstruct.py)",
+                                                       "A-CRYPTO(P-256): ecdsa VerifyingKey.from_string / to_string as uninterpreted functions with the parse-back axiom"],
                 trusted_base=["spec/certs.py"],
                 explanation="v1 element names are restricted to four constants, so the element map is a finite map and paths are finite formulas; "
                             "while-loops are unrolled with an unwinding assertion (complete when it is discharged)",
-                extras=[_certs_bounded("C16")]),
+                extras=[_certs_bounded("C16"), _certs_v2_bounded("C16")]),
     "C06": dict(level="proof", assumptions=COMMON + ["A-CRYPTO: secp256k1 ECDSA / HMAC tweak / key parsing as uninterpreted cert.link_valid, cert.pubkey_of_hex"],
                 trusted_base=["spec/certs.py"],
                 explanation="verdict of every target compared with a recursive specification over the finite element map",
